@@ -41,6 +41,20 @@ Print Assumptions C15_reassembly.
 
 (* the two directions are two independent instances of the model (no shared state);
    non-bridge requests go to the passthrough handler *)
+(* "in both directions at once ... and across concurrently bridged connections": any number of streams (one per bridged
+   connection and direction), writes and reads of all of them interleaved in any order - also reads that come before the
+   data, and writes between the reads - : what the reads of stream k have returned is, in order, a prefix of what was
+   written to stream k, and of nothing else.  (C15_reassembly is the case of one stream with all writes first.) *)
+Theorem C15_streams_independent : forall es k, Forall ev_ok es ->
+  exists rest, got k (mtrace m_init es) ++ rest = written k es.
+Proof. exact streams_independent. Qed.
+Print Assumptions C15_streams_independent.
+
+Example C15_streams_example :
+  let t := mtrace m_init [MRead 1 4; MWrite 0 [1; 2; 3]; MWrite 1 [9]; MRead 0 2; MWrite 1 [8; 7]; MRead 1 5; MRead 0 2; MRead 1 1; MRead 1 1] in
+  got 0 t = [1; 2; 3] /\ got 1 t = [9; 8; 7].
+Proof. vm_compute. split; reflexivity. Qed.
+
 Theorem C15_passthrough : forall sp up path, routes_to_bridge sp up path = true <-> (up = true /\ path = sp).
 Proof.
   intros sp up path. unfold routes_to_bridge. rewrite andb_true_iff, String.eqb_eq. tauto.
